@@ -542,6 +542,17 @@ var AncestorLoop = errors.New("ancestor loop detected")
 
 // DoAncestors calls the given function on this location and all of its ancestors in depth-first order.
 func (loc *Location) DoAncestors(ctx *Context, fn func(*Location) error) error {
+	return loc.doAncestors(ctx, fn, make(map[string]bool))
+}
+
+// doAncestors does the work for DoAncestors.  The names of the
+// locations on the current path from the starting location are kept
+// in 'visiting' so that a parent chain that loops back (directly or
+// through other locations) is reported as AncestorLoop instead of
+// recursing forever.
+func (loc *Location) doAncestors(ctx *Context, fn func(*Location) error, visiting map[string]bool) error {
+	visiting[loc.Name] = true
+	defer delete(visiting, loc.Name)
 
 	parents, err := loc.getParents(ctx)
 	if err != nil {
@@ -555,11 +566,9 @@ func (loc *Location) DoAncestors(ctx *Context, fn func(*Location) error) error {
 		}
 
 		for _, parent := range parents {
-			if parent == loc.Name {
-				// Quick, local loop check.  To check
-				// for non-local loops, need to keep
-				// some state in the stack.  We're not
-				// (yet) doing that.
+			if parent == loc.Name || visiting[parent] {
+				// The parent is this location or is
+				// already on the path that led here.
 				return AncestorLoop
 			}
 
@@ -573,7 +582,7 @@ func (loc *Location) DoAncestors(ctx *Context, fn func(*Location) error) error {
 			if err != nil {
 				return err
 			}
-			if err = p.DoAncestors(ctx, fn); err != nil {
+			if err = p.doAncestors(ctx, fn, visiting); err != nil {
 				return err
 			}
 		}
